@@ -62,7 +62,9 @@ def dedrift(fr, drift_rate=None):
                          tr_data,
                          metadata=fr.metadata,
                          waterfall=fr.check_waterfall(),
-                         seed=fr.rng)
+                         seed=fr.rng,
+                         t_start=fr.t_start,
+                         source_name=fr.source_name)
 #     if dd_fr.waterfall is not None and 'source_name' in dd_fr.waterfall.header:
 #         dd_fr.waterfall.header['source_name'] += '_dedrifted'
     return dd_fr
